@@ -244,6 +244,9 @@ func (v *Vue) evalPipe(ctx VueContext, expr pipeExpr) (any, error) {
 				return nil, err
 			}
 			ok = true
+		} else if res, err := v.exprEval.Eval(expr.initial, ctx.stack.EnvMap()); err == nil && res != nil {
+			// ... or any other expression: n>3, !flag, items[i + 1]
+			val, ok = res, true
 		}
 	}
 	if !ok {
